@@ -115,7 +115,10 @@ class Scenario:
         if len(log.ev) > n0:
             log.ev[-1]["obs"] = {"stopped": bool(self.src.stopped)}
             if self.cfg["kind"] == "textfile":
-                log.ev[-1]["obs"]["buffer"] = list(self.src.buffer.encode("utf-8"))
+                try:        # (private attribute: observed only if it has the known shape)
+                    log.ev[-1]["obs"]["buffer"] = list(self.src.buffer.encode("utf-8"))
+                except Exception:
+                    pass
 
     def enabled(self, c, arg=None):
         loop, log = self.loop, self.log
